@@ -28,7 +28,10 @@ ALPHA = ['a', '\n', '\r', ' ']
 OFFSETS = [(lno, fco, co) for lno in (None, 1, 0, 10) for fco in (0, 3) for co in (0, 2)]
 # 'omit' = keyword not passed at all, None = passed as None: both mean the documented default
 OFFSETS += [(None, 'omit', 'omit'), (None, None, None), (10, 'omit', 2), (0, 3, 'omit')]
-ERR_ALPHA = ['a', '\n', '{', '}', '$', '\\textbf', '\\end{x}']
+# (the last four make errors that are raised by the token reader itself or by the verbatim
+# parsers -- constructed with the source string at hand -- rather than by the nodes collector)
+ERR_ALPHA = ['a', '\n', '{', '}', '$', '\\textbf', '\\end{x}', '\\', '\\begin', '\\verb|',
+             '\\begin{verbatim}']
 ERR_OFFSETS = [(None, 0, 0), (10, 3, 2), (0, 0, 5)]
 NSHARDS = 16
 
